@@ -13,6 +13,8 @@ fixed('C08', '703e765', "is_parent_around used '<': a pre-terminal whose adoptin
 fixed('C09', '1320342', 'print_banner() began with a bare print(): first stdout line of every run was empty', {'cmd': 'pcfg_guesser.py -r <any> -n 3'}, 'F-C09')
 fixed('C09', '0e5d105', 'error paths of the guesser printed diagnostics to stdout (unwritable .sav message between guesses, --limit validation, "Exiting", loader and OMEN load errors)', {'cmd': 'pcfg_guesser.py -r R -s S  with S.sav being a directory', 'stdout': '[Errno 21] Is a directory: ... / Error writing sessiong restore file'}, 'F-C09b')
 fixed('C16', '7b05ecf', 'random_walk compared running sums with an unscaled uniform draw: on a ruleset whose probabilities do not add up to 1 (edit_rules output, rounding) a draw above the total selected no base structure (IndexError in create_guesses) or silently kept group 0', {'ruleset': 'base structures summing to 0.6', 'draw': 'u = 0.8'}, 'F-C16')
+fixed('C16', 'efb78ab', 'the trainer wrote a ruleset listing the Markov structure although no OMEN level had any keyspace (pcfg_omen_prob.txt empty): honeyword mode (and the default mode at start-up) died with IndexError when that structure was drawn, so --limit N words were not produced', {'training': 'alphabet 10, ngram 3, passwords whose first n-gram is outside the alphabet', 'coverage': 0.92}, 'F-C16b')
+fixed('C02', 'efb78ab', 'same defect seen from the enumeration side: the default-mode guesser cannot even initialise its queue on such a ruleset', {'training': 'as F-C16b'}, 'F-C16b')
 fixed('C12', 'e621645', "generation loop treated 'keypress thread not alive' as quit: EOF, /dev/null, closed stdin or an exception in the status printer truncated the run; with the thread parked between should_exit=True and return a Markov level was abandoned while the run went on",
       {'stdin': ['pipe at EOF', '/dev/null', 'closed fd 0'], 'observed': '48 / 48 / 0 of 4011 guesses'}, 'F-C12')
 fixed('C12', '916fce6', "keypress() returned on an exception from the status report before looking at the input: a 'q' typed while a restored OMEN remainder is replayed (status report indexes grammar['M'] with a level number -> IndexError) never set should_exit", {'history': 'quit inside a Markov level, --load, q during the replayed remainder', 'ruleset': 'fewer entries in pcfg_omen_prob.txt than the interrupted level number'}, 'F-C12b')
